@@ -80,6 +80,11 @@ def _child(sc, wfd):
         for k, v in sc.get('env', {}).items():
             os.environ[k] = v
         os.chdir(tmp)
+        if sc.get('fresh'):
+            # start from the state of a new process: the modules of the tool are imported anew (the warm parent may have used them -
+            # in-process legs of a check - and first-use initialisers, caches and per-thread tables would be inherited as they were left)
+            for m in [m for m in sys.modules if m == 'ssh_audit' or m.startswith('ssh_audit.')]:
+                del sys.modules[m]
         fakenet.install(world)
         if sc.get('observe'):
             os.environ['SSH_AUDIT_VERIF'] = '1'
